@@ -255,6 +255,10 @@ fn c12_cancelled_request_answered() {
     std::mem::forget(s);
 }
 
+// NOTE: the lifecycle latch of drain_events (H-C12-b) is not decided: the drained Vec<InternalEvent> is dropped at the end
+// of drain_events and CBMC expands the drop glue of serde_json::Value (BTreeMap nodes, recursion) for it - 30 minutes
+// without a result even with concrete event kinds (DESIGN 11.2).
+
 fn wire_increasing() -> bool {
     let (n, w) = unsafe { (WIRE_N, WIRE) };
     let mut ok = true;
